@@ -19,12 +19,24 @@
 //
 // A server is reused for several lines; every line starts by reading the current parameter values (`Q v`
 // of its graph description), struct caches are then whatever they are (responses depend on the valuation
-// only).  Update values are unique per server.  If the server cannot be started, or a request fails on
-// the transport level / times out, the harness exits non-zero with a message (no silent skip).
+// only).  Update values are unique per server.
+//
+// ENVIRONMENT failures never raise an alarm: if the loopback server cannot be used — Listen fails, Run
+// returns early, the server is not up within 10 s (at most 8 ports tried), a request fails on the
+// transport level (refused/reset/EOF), or a request times out AND a following `GET /schema` probe (2 s)
+// fails as well — the history in progress is dropped (a line is emitted only after its whole history
+// completed), `http.unavailable` + `http.unavailable.<listen|start-deadline|run-returned|transport-midrun>`
+// are noted, one line goes to stderr, no further HTTP lines are produced and the stream goes on and
+// exits 0.  When everything worked `http.available` = number of servers is noted.  What stays an ERROR
+// (exit 3, the implementation's fault): a request that gets no response within the 60 s client timeout
+// while the same server still answers the probe (a lock left held), and a parameter that cannot be read.
+// An HTTP status != 200 is an observed response (`err`), not a failure.
+// C13_HTTP_FORCE_UNAVAILABLE=listen|midrun simulates the two kinds of environment failure (self-test).
 package main
 
 import (
 	"encoding/json"
+	"errors"
 	"fmt"
 	"io"
 	"net"
@@ -76,6 +88,19 @@ func c13Fatal(format string, a ...any) {
 	os.Exit(3)
 }
 
+// environment failure: first kind wins; read by the main goroutine between requests / lines
+var c13HTTPEnv atomic.Pointer[string]
+
+func c13EnvFail(kind, format string, a ...any) {
+	msg := kind + ": " + fmt.Sprintf(format, a...)
+	c13HTTPEnv.CompareAndSwap(nil, &msg)
+}
+
+func c13HTTPDown() bool { return c13HTTPEnv.Load() != nil }
+
+var c13ForceUnavailable = os.Getenv("C13_HTTP_FORCE_UNAVAILABLE")
+var c13Requests atomic.Int64
+
 type c13Server struct {
 	c      *Ctx
 	base   string
@@ -88,10 +113,16 @@ type c13Server struct {
 	rel    map[int]map[int]int // producer -> parameters it depends on (path counts)
 }
 
+// a fresh port per server (never a fixed one: concurrent checks must not collide); "" = cannot listen
 func c13FreePort() string {
+	if c13ForceUnavailable == "1" || c13ForceUnavailable == "listen" {
+		c13EnvFail("listen", "forced by C13_HTTP_FORCE_UNAVAILABLE")
+		return ""
+	}
 	l, err := net.Listen("tcp", "127.0.0.1:0")
 	if err != nil {
-		c13Fatal("no free port: %v", err)
+		c13EnvFail("listen", "net.Listen 127.0.0.1:0: %v", err)
+		return ""
 	}
 	defer l.Close()
 	return strconv.Itoa(l.Addr().(*net.TCPAddr).Port)
@@ -149,23 +180,31 @@ func c13StartServer(c *Ctx) *c13Server {
 		} `json:"nodes"`
 	}
 	var lastErr error
-	for attempt := 0; attempt < 8; attempt++ {
+	overall := time.Now().Add(10 * time.Second)
+	for attempt := 0; attempt < 8 && time.Now().Before(overall); attempt++ {
 		port := c13FreePort()
+		if port == "" {
+			return nil
+		}
 		s.base = "http://127.0.0.1:" + port
 		errCh := make(chan error, 1)
 		go func() {
 			errCh <- app.Run([]string{"c13", "edit", "-host", "127.0.0.1", "-port", port, "-launch-browser=false"})
 		}()
-		deadline := time.Now().Add(15 * time.Second)
+		deadline := overall
 		up := false
 	poll:
 		for time.Now().Before(deadline) {
 			select {
 			case lastErr = <-errCh:
-				break poll // could not listen (port taken meanwhile): next attempt
+				if lastErr != nil && strings.Contains(lastErr.Error(), "address already in use") {
+					break poll // the port was taken between our close and Serve: next attempt, new port
+				}
+				c13EnvFail("run-returned", "generator.App.Run(edit) returned before serving: %v", lastErr)
+				return nil
 			default:
 			}
-			body, status, err := s.raw(http.MethodGet, "/schema", "")
+			body, status, err := s.probe(2 * time.Second)
 			if err != nil || status != 200 {
 				lastErr = fmt.Errorf("GET /schema: status %d err %v", status, err)
 				time.Sleep(3 * time.Millisecond)
@@ -173,7 +212,9 @@ func c13StartServer(c *Ctx) *c13Server {
 			}
 			var sc schemaT
 			if err := json.Unmarshal(body, &sc); err != nil {
-				c13Fatal("bad /schema: %v", err)
+				lastErr = fmt.Errorf("the server on port %s answers /schema with something else: %v", port, err)
+				time.Sleep(20 * time.Millisecond)
+				continue
 			}
 			s.ids = make([]string, len(g))
 			byName := map[string]string{}
@@ -201,17 +242,35 @@ func c13StartServer(c *Ctx) *c13Server {
 		if up {
 			go func() {
 				err := <-errCh
-				c13Fatal("edit server on %s stopped: %v", s.base, err)
+				c13EnvFail("run-returned", "edit server on %s stopped: %v", s.base, err)
 			}()
 			c.Note("http.servers")
 			return s
 		}
 	}
-	c13Fatal("could not start the edit server (generator.App.Run edit): %v", lastErr)
+	c13EnvFail("start-deadline", "edit server not up within 10 s / 8 ports: %v", lastErr)
 	return nil
 }
 
+// probe: GET /schema with its own short timeout (readiness, and "does the server still answer")
+func (s *c13Server) probe(timeout time.Duration) ([]byte, int, error) {
+	if c13ForceUnavailable == "midrun" && c13Requests.Load() > 40 {
+		return nil, 0, errors.New("forced by C13_HTTP_FORCE_UNAVAILABLE")
+	}
+	cl := &http.Client{Timeout: timeout, Transport: &http.Transport{DisableKeepAlives: true}}
+	resp, err := cl.Get(s.base + "/schema")
+	if err != nil {
+		return nil, 0, err
+	}
+	defer resp.Body.Close()
+	data, err := io.ReadAll(resp.Body)
+	return data, resp.StatusCode, err
+}
+
 func (s *c13Server) raw(method, path, body string) ([]byte, int, error) {
+	if c13ForceUnavailable == "midrun" && c13Requests.Add(1) > 40 {
+		return nil, 0, errors.New("forced by C13_HTTP_FORCE_UNAVAILABLE")
+	}
 	var rd io.Reader
 	if method == http.MethodPost {
 		rd = strings.NewReader(body)
@@ -229,8 +288,12 @@ func (s *c13Server) raw(method, path, body string) ([]byte, int, error) {
 	return data, resp.StatusCode, err
 }
 
-// do performs one call over HTTP; the response token and the HTTP status.
+// do performs one call over HTTP; the response token and the HTTP status.  ("env", -1) = environment
+// failure (recorded in c13HTTPEnv; once that is set nothing is sent any more).
 func (s *c13Server) do(k c13Call) (string, int) {
+	if c13HTTPDown() {
+		return "env", -1
+	}
 	id, name := "Node-"+itoa(c13Unknown), c13UnknownNames[k.v%len(c13UnknownNames)]
 	if name == "" {
 		name = "p100"
@@ -250,7 +313,16 @@ func (s *c13Server) do(k c13Call) (string, int) {
 		body, status, err = s.raw(http.MethodGet, "/producer/value/"+strings.ReplaceAll(name, " ", "%20"), "")
 	}
 	if err != nil {
-		c13Fatal("request %s failed on the transport level (server hung?): %v", k.String(), err)
+		var ne net.Error
+		timedOut := errors.As(err, &ne) && ne.Timeout()
+		if timedOut && !c13HTTPDown() {
+			if _, st, perr := s.probe(2 * time.Second); perr == nil && st == 200 {
+				// the server answers, this request does not: the implementation hangs (a lock left held)
+				c13Fatal("request %s got no response within the client timeout while the server still answers GET /schema (deadlock?): %v", k.String(), err)
+			}
+		}
+		c13EnvFail("transport-midrun", "request %s: %v", k.String(), err)
+		return "env", -1
 	}
 	if status != 200 {
 		return "err", status
@@ -271,6 +343,9 @@ func (s *c13Server) snapshot() (string, map[int]int) {
 	cur := map[int]int{}
 	for _, p := range s.b.pars {
 		r, status := s.do(c13Call{kind: 'd', p: p})
+		if status == -1 {
+			return "", nil // environment failure: the caller drops the line
+		}
 		if status != 200 || !strings.HasPrefix(r, "v ") {
 			c13Fatal("cannot read parameter %d: %s (status %d)", p, r, status)
 		}
@@ -288,6 +363,9 @@ func (s *c13Server) unique() int { s.next++; return s.next - 1 }
 func c13HTTPSeq(s *c13Server) {
 	c := s.c
 	gstr, cur := s.snapshot()
+	if c13HTTPDown() {
+		return
+	}
 	b := s.b
 	K := 4 + c.Rng.Intn(21)
 	var queue []c13Call
@@ -334,6 +412,9 @@ func c13HTTPSeq(s *c13Server) {
 			}
 		}
 		resp, status := s.do(k)
+		if status == -1 {
+			return // environment failure: the line in progress is dropped
+		}
 		if status != 200 {
 			c.Note("http.status=" + itoa(status))
 		}
@@ -378,7 +459,7 @@ func (h *c13HTTPHist) call(tid int, k c13Call) string {
 	tResp := h.ctr.Add(1)
 	h.mu.Lock()
 	h.recs = append(h.recs, c13Rec{tInv: tInv, tResp: tResp, tid: tid, call: k, resp: resp})
-	if status != 200 {
+	if status != 200 && status != -1 {
 		h.stat = append(h.stat, status)
 	}
 	h.mu.Unlock()
@@ -393,6 +474,9 @@ func (h *c13HTTPHist) async(tid int, k c13Call) chan string {
 
 func (h *c13HTTPHist) emit(gstr string) {
 	c := h.s.c
+	if c13HTTPDown() {
+		return // environment failure during this history: dropped as a whole
+	}
 	ops := append([]c13Rec{}, h.recs...)
 	sort.Slice(ops, func(i, j int) bool { return ops[i].tInv < ops[j].tInv })
 	type ev struct {
@@ -424,16 +508,14 @@ func (h *c13HTTPHist) blocked(tid0 int, prods []int) (done []chan string, held i
 		done = append(done, h.async(tid0+i, c13Call{kind: 'a', p: p}))
 	}
 	finished := 0
-	timeout := time.After(30 * time.Second)
 	for held+finished < len(prods) {
-		// a download that returns without entering Write is seen on its done channel
+		// a download that returns without entering Write is seen on its done channel; one that does
+		// neither ends with its client timeout (60 s), which do() classifies (deadlock vs environment)
 		progressed := false
 		select {
 		case <-g.entered:
 			held++
 			progressed = true
-		case <-timeout:
-			c13Fatal("blocked download neither entered Write nor completed within 30 s")
 		default:
 		}
 		if progressed {
@@ -461,11 +543,7 @@ func (h *c13HTTPHist) releaseAll(done []chan string, held int) {
 		h.s.gate.release <- struct{}{}
 	}
 	for _, d := range done {
-		select {
-		case <-d:
-		case <-time.After(30 * time.Second):
-			c13Fatal("released download did not complete within 30 s")
-		}
+		<-d // completes at the latest with the client timeout
 	}
 }
 
@@ -563,8 +641,14 @@ func c13HTTPSchedules(s *c13Server) {
 	}
 	run := func(name string, f func(h *c13HTTPHist)) {
 		gstr, _ := s.snapshot()
+		if c13HTTPDown() {
+			return
+		}
 		h := &c13HTTPHist{s: s}
 		f(h)
+		if c13HTTPDown() {
+			return
+		}
 		c.Note("http.schedule." + name)
 		h.emit(gstr)
 	}
@@ -596,6 +680,9 @@ func c13HTTPSchedules(s *c13Server) {
 func c13HTTPRandom(s *c13Server) {
 	c := s.c
 	gstr, _ := s.snapshot()
+	if c13HTTPDown() {
+		return
+	}
 	clients := 2 + c.Rng.Intn(3)
 	plan := make([][]c13Call, clients)
 	for t := range plan {
@@ -629,6 +716,9 @@ func c13HTTPRandom(s *c13Server) {
 	}
 	close(start)
 	wg.Wait()
+	if c13HTTPDown() {
+		return
+	}
 	c.Note("http.random-histories")
 	c.Note("http.random-clients=" + itoa(clients))
 	h.emit(gstr)
@@ -637,14 +727,24 @@ func c13HTTPRandom(s *c13Server) {
 // c13HTTP: 1 + N/300 servers; per server 3 sequential lines, the schedules S1 S2 S3 S4 S1x3, 2 random histories
 func c13HTTP(c *Ctx) {
 	servers := 1 + c.N/300
-	for i := 0; i < servers; i++ {
+	for i := 0; i < servers && !c13HTTPDown(); i++ {
 		s := c13StartServer(c)
-		c13HTTPSeq(s)
-		c13HTTPSchedules(s)
-		c13HTTPSeq(s)
-		c13HTTPRandom(s)
-		c13HTTPSeq(s)
-		c13HTTPRandom(s)
+		if s == nil {
+			break
+		}
+		for _, step := range []func(*c13Server){c13HTTPSeq, c13HTTPSchedules, c13HTTPSeq, c13HTTPRandom, c13HTTPSeq, c13HTTPRandom} {
+			if !c13HTTPDown() {
+				step(s)
+			}
+		}
 		s.client.CloseIdleConnections()
 	}
+	if msg := c13HTTPEnv.Load(); msg != nil {
+		kind := (*msg)[:strings.Index(*msg, ":")]
+		c.Note("http.unavailable")
+		c.Note("http.unavailable." + kind)
+		fmt.Fprintf(os.Stderr, "c13 http: loopback edit server unavailable (%s); the HTTP families stop here after %d server(s), the stream goes on (environment, not a finding)\n", *msg, c.notes["http.servers"])
+		return
+	}
+	c.notes["http.available"] = c.notes["http.servers"]
 }
